@@ -46,7 +46,7 @@ CHECKS = {
         category="fault_enumeration",
         technique="runtime monitoring with fault injection: the harness' global allocator fails the k-th allocation made during execute, enumerated over k; exit status / signal classification + event-log prefix check",
         text=("Fault enumeration. For each growth-heavy program, back end and level the allocations made during execute are counted in a clean run and then each one is failed in turn in a forked child; the run must end by the "
-              "allocation-failure abort or a panic before any memory fault, with the events so far a prefix of the canonical run."),
+              "allocation-failure abort or a panic before any memory fault, with the events so far a prefix of the canonical run. A second stage requests tape positions that no allocator can provide (>= 2^60 cells, up to the ends of isize) through the tape API and accepts only the abort or a panic."),
         note="Trusted base: the interposed global allocator and the SIGSEGV/SIGBUS handler. A write through a null-based pointer that happens to hit mapped memory would not fault; the first pages are unmapped in the children.",
         design="5 C17"),
     "C06": dict(
